@@ -4,12 +4,18 @@
 ID=$1; M=$2; RX=${3:-.}
 W=/tmp/seed/$ID; R=$W/repo; O=$W/out/$M; B=$W/cb_$M
 cd $R && git checkout -q -- . && git apply --check $O/patch.diff || { echo "patch does not apply"; exit 2; }
-run_demo() { # $1 = build dir
-  if [ -f $O/build_demo.sh ]; then (cd $O && bash ./build_demo.sh $1 > $O/demo_build.log 2>&1); fi
-  local exe=$(ls -t $O/demo $O/demo_bin $O/*.out 2>/dev/null | head -1)
-  if [ -z "$exe" ]; then exe=$(find $O -maxdepth 1 -type f -executable ! -name '*.sh' | head -1); fi
+run_demo() { # $1 = build dir.  Conventions seen: run_demo.sh <build> [repo]; build_demo.sh that also runs; build_demo.sh + exe
+  local rc
+  if [ -f $O/run_demo.sh ]; then (cd $O && timeout 2400 sh ./run_demo.sh $1 $R > $O/demo_run.log 2>&1); return $?; fi
+  if [ -f $O/build_demo.sh ]; then
+    if grep -q "^exec \|runs it\|and run" $O/build_demo.sh; then
+      (cd $O && timeout 2400 sh ./build_demo.sh $1 > $O/demo_run.log 2>&1); return $?
+    fi
+    (cd $O && bash ./build_demo.sh $1 $R > $O/demo_build.log 2>&1)
+  fi
+  local exe=$(find $O -maxdepth 1 -type f -executable ! -name '*.sh' -newer $O/patch.diff | head -1)
   if [ -z "$exe" ]; then echo "no demo exe"; return 99; fi
-  (cd $O && timeout 1200 $exe > $O/demo_run.log 2>&1); return $?
+  (cd $O && timeout 2400 $exe > $O/demo_run.log 2>&1); return $?
 }
 build() { cmake -G Ninja -S $R -B $B -DCMAKE_BUILD_TYPE=Release > $B.log 2>&1 && cmake --build $B -j 8 >> $B.log 2>&1; }
 mkdir -p $B
